@@ -6,6 +6,7 @@ LINEBREAKS = "\n\r\x0b\x0c\x1c\x1d\x1e\x85  "
 KEY_ALPHABET = "abcXYZ019 _-#.äß€Ω/\\\t\"'"
 VAL_ALPHABET = "abcXYZ019 _-#.:äß€Ω/\\=\"'"
 
+ENC_VARIANTS = [b"", b"\x00", b"\x01", b"\x03", b"\x00\x02", b"\x02\x00", b"\x00\x00\x02", b"\x02\x02", b"\xff"]
 PAYLOAD_LENS = [1, 2, 15, 16, 17, 31, 32, 33, 39, 40, 41, 47, 48, 49, 79, 80, 81, 255, 256, 257]
 BIG_LENS = [4095, 4096, 4097]
 
@@ -59,8 +60,11 @@ def gen_desc(rng, allow_enc_tag=False, maxbytes=None):
         if total + 2 + ln > limit:
             continue
         v = rng.randbytes(ln)
-        if t == 0xC2 and v == b"\x02" and not allow_enc_tag:
-            v = b"\x00"
+        if t == 0xC2:
+            # the ENC tag on a PLAIN component: any value except the one-byte 02 (= session-key encryption)
+            v = rng.choice(ENC_VARIANTS) if rng.random() < 0.8 else v
+            if v == b"\x02" and not allow_enc_tag:
+                v = b"\x00"
         used.add(t)
         tags.append((t, v))
         total += 2 + ln
